@@ -251,6 +251,8 @@ class Ref:
                 out[lp] = [(path, ("bun", e.name) + e.path + lp, i) for i in range(w)]
         elif isinstance(e, Anon):
             md = dict(e.members)
+            # an anonymous bundle carries exactly the members of the port's bundle: none missing (KeyError below), none extra
+            assert set(md) <= {n for n, _ in bdef.sigs} | {n for n, _ in bdef.subs}, "anonymous bundle has a member the port lacks"
             for n, w in bdef.sigs:
                 out[(n,)] = self.bits(mod, path, md[n])
             for n, sb in bdef.subs:
